@@ -142,6 +142,27 @@ def check(ctx, rep):
     for o in sub.obs:
         if o.rule == "R-CB-TOTAL":
             rep.ob("R-CB-TOTAL", o.key, o.ok, o.detail, o.where, o.trace)
+    # "invoked with exactly the submitted arguments", whatever they are called: submit() must not have named parameters
+    # of its own that a keyword argument meant for the callable can collide with -- neither directly nor in the
+    # method it forwards **kwargs to (ThreadPoolExecutor.submit takes its own parameters positionally only)
+    rep.rule("R-KWNAMES", "no executor's submit() path binds a caller keyword argument to a parameter of the library: submit(self, *args, **kwargs) all the way down to the delegate's submit / the job record")
+    for ci in sorted(ctx.executor_classes(), key=lambda c: c.key):
+        o, sm = ci.lookup("submit")
+        if sm is None or not isinstance(o, ClassInfo) or sm.kwarg is None:
+            continue
+        names = [n for n in sm.params[1:]]
+        ps_, it_ = ctx.paths(sm, ci, depth=0)
+        for p_ in ps_:
+            for e in p_.calls():
+                c = e.d["callee"]
+                if c is not None and c.owner is not None and c.owner in ci.mro() and any(k is None and v == ("kw", (), ("param", sm.kwarg)) for k, v in e.d["kwargs"]):
+                    for n in c.params[1:]:
+                        if n not in names:
+                            names.append(n)
+        if not names:
+            rep.ob("R-KWNAMES", "%s.submit: a keyword argument of any name reaches the callable" % ci.name, True, "", where_of(sm))
+        for n in names:
+            rep.ob("R-KWNAMES", "%s.submit: the keyword name `%s` is free for the callable" % (ci.name, n), False, "a callable submitted with a keyword argument named `%s` cannot be passed through %s.submit(): the name is taken by a parameter of the library (TypeError: got multiple values for argument '%s'), although the executor underneath would accept it" % (n, ci.name, n), where_of(sm))
     # every with_map / with_flat_map / throttle / timeout layer passes outcomes on through the map future's table:
     # value -> fn(value), failure -> the same exception object (error function: its result, or the exception it
     # raised -- identity decides "the same"), cancelled -> cancelled (shared with C13)
